@@ -196,6 +196,10 @@ class Interp(EngineBase):
                 return res
         raise OutOfSubset(f"list comprehension at line {e.lineno}")
 
+    def ev_GeneratorExp(self, e):
+        # consumed at once by set(...) / list(...) in the subset: same image multiset as the list comprehension
+        return self.ev_ListComp(e)
+
     def ev_DictComp(self, e):
         g = e.generators[0]
         if len(e.generators) != 1 or g.ifs or not isinstance(g.target, ast.Name):
